@@ -1325,10 +1325,14 @@ class Normalizer:
         if ctx['self'] and any(isinstance(n, ast.Name) and n.id == ctx['self'] and isinstance(n.ctx, ast.Store)
                                for n in ast.walk(fn)):
             ctx['self'] = None
+        ch0 = False
+        if maybe_call and want['ifexp']:
+            # x = f(a) if c else g(a): a helper call in an arm can only be replaced by its body once the arm is a statement
+            ch0 = self.ifexp_statements(fn)
         if maybe_call:
             fn.body = self.proc_block(fn.body, ctx, MAX_DEPTH)
-        ch = bool(ctx['used'])
-        if ch:
+        ch = bool(ctx['used']) or ch0
+        if ctx['used']:
             want = {k: True for k in want}      # inlined bodies may bring any of the shapes
         if want['zip']:
             ch |= self.literal_zip(fn)
